@@ -29,6 +29,47 @@ impl Prop for C07 {
     }
     fn gen(&self, seed: u64, tier: Tier) -> Case {
         let mut r = Rng::new(seed);
+        if r.chance(200) {
+            // 'timers' population: every feature whose outcome depends on time that passes while
+            // nothing else happens, probed with pauses around its threshold (the idle decision must
+            // not be taken while such a clock still matters)
+            let t = *r.pick(&[20u64, 50, 200, 1000]);
+            let t2 = *r.pick(&[10u64, 30, 120]);
+            let cmp = *r.pick(&["lt", "gt", "less-than", "greater-than"]);
+            let nth = r.range(1, 3);
+            let acts = [
+                format!("(switch ((key-timing {nth} {cmp} {t})) x break () y break)"),
+                format!("(switch ((key-timing 1 lt {t2})) 1 fallthrough ((key-timing {nth} {cmp} {t})) x break () y break)"),
+                format!("(tap-dance {t} (x y z))"),
+                format!("(tap-dance-eager {t} (x y z))"),
+                format!("(one-shot {t} lsft)"),
+                format!("(tap-hold {t2} {t} x lctl)"),
+                format!("(tap-hold-release-timeout {t2} {t} x lctl z)"),
+                format!("(macro x {t} y)"),
+                format!("(multi (on-press press-vkey vk0) (on-release release-vkey vk0))"),
+                format!("(hold-for-duration {t} vk0)"),
+                format!("(caps-word {t})"),
+            ];
+            let a1 = r.pick(&acts).clone();
+            let a2 = r.pick(&acts).clone();
+            let cfg = format!("(defcfg concurrent-tap-hold yes)\n(defsrc a b c d)\n(defvirtualkeys vk0 ralt)\n(deflayer l0 a b {a1} {a2})\n");
+            let mut case = Case { prop: "C07".into(), seed, cfg, ..Default::default() };
+            let keys = [oscode_of("a"), oscode_of("b"), oscode_of("c"), oscode_of("d")];
+            let mut ops = vec![];
+            for _ in 0..r.range(2, 7) {
+                let k = *r.pick(&keys);
+                ops.push(Op::Press(k));
+                ops.push(Op::Gap(*r.pick(&[1u32, 2, 5, 15])));
+                ops.push(Op::Release(k));
+                let th = *r.pick(&[t, t2]);
+                let g = *r.pick(&[th.saturating_sub(2), th.saturating_sub(1), th, th + 1, th + 2, th + 50, th * 10, 3, 1]);
+                ops.push(Op::Gap(g.max(1) as u32));
+            }
+            ops.push(Op::Gap(r.range(100, 1500) as u32));
+            case.ops = ops;
+            case.set("pop", "timers");
+            return case;
+        }
         let o = GenOpts { feats: feat::ALL_RUNTIME & !feat::DELAY, max_keys: 7, max_layers: 3, max_depth: 3, hostile: false };
         let spec = gen_general(&mut r, &o);
         let mut case = Case { prop: "C07".into(), seed, cfg: spec_text(&spec), files: spec.files.clone(), ..Default::default() };
@@ -85,6 +126,9 @@ impl Prop for C07 {
         b.finish();
         let tb = std::mem::take(&mut b.trace);
         let mut o = RunOut::pass();
+        if let Some(p) = case.param("pop") {
+            o.count(&format!("pop.{p}"), 1);
+        }
         o.sim_ms = ta.sim_ms + tb.sim_ms;
         o.sig = trace_sig(&ta.outs);
         o.nontrivial = tb.skipped_ms > 0 && !ta.outs.is_empty();
